@@ -9,6 +9,11 @@ from clastic import Application, Route
 from sim.core.base import Check, RunResult, Streams, InvalidPlan, canon
 from sim.core.gateway import make_environ, call_app
 from sim.worlds import routing as R
+from sim.core.sched import BatonScheduler
+from sim.core import runner
+import os
+
+WATCH = (os.path.join(runner.REPO, 'clastic') + os.sep, '<sinter')
 
 
 def make_route(e):
@@ -20,8 +25,9 @@ class C06(Check):
     world = 'routing-table'
     level = 'exploration'
     design_ref = 'DESIGN.md 3.3'
-    runs = {'quick': 1200, 'thorough': 30000}
+    runs = {'quick': 800, 'thorough': 30000}
     shrink_lists = (('ops',), ('config', 'ctor'))
+    hashseeds = {'quick': [1], 'thorough': [1, 2]}
     rule = ('routing tables of up to 6 routes from a catalogue of overlapping/disjoint patterns (match relation known by '
             'construction), method sets (none/one/several/lower-case), route outcomes (answer, breaking 4xx/5xx raised/returned, '
             'non-breaking 403/404 raised/returned, uncaught exception); built by constructor list and by add(entry, index) '
@@ -37,7 +43,7 @@ class C06(Check):
     level_text = ('Seeded search over table-building histories interleaved with request streams; per table the full '
                   'paths x methods catalogue is swept at least once. The table/history space is sampled.')
     level_note = 'Trusted: the sequential dispatch model (~40 lines) and the catalogue match relation.'
-    required_probes = ('405-with-allow', 'fallthrough-then-later-route', 'fallthrough-last-error-wins', 'add-at-index',
+    required_probes = ('add-concurrent-with-request', '405-with-allow', 'fallthrough-then-later-route', 'fallthrough-last-error-wins', 'add-at-index',
                        'head-on-get-route', 'lowercase-method', 'redirect-302', 'strict-mode')
 
     def gen_entry(self, rng, mode, k):
@@ -59,9 +65,21 @@ class C06(Check):
             r = rng.random()
             if r < 0.15 and n_routes < 6:
                 idx = rng.choice([None, None] + list(range(n_routes + 1)))
-                ops.append({'op': 'add', 'entry': self.gen_entry(rng, mode, k), 'index': idx})
+                op = {'op': 'add', 'entry': self.gen_entry(rng, mode, k), 'index': idx}
+                if rng.random() < 0.35:
+                    # the table is extended WHILE a request is being served on another thread
+                    sch = S['sched']
+                    gran = sch.choice(['line', 'line', 'ins'])
+                    hi = 250 if gran == 'line' else 1500
+                    order = sch.choice([['A', 'R'], ['R', 'A']])
+                    op.update({'op': 'add_conc', 'req': {'path': rng.choice(R.PATHS), 'method': rng.choice(R.METHODS[:5])},
+                               'granularity': gran, 'order': order,
+                               'preempts': sorted([sch.randint(1, hi), sch.choice(['demote', 'A', 'R'])] for _ in range(sch.randint(1, 5)))})
+                ops.append(op)
                 k += 1
                 n_routes += 1
+                if op['op'] == 'add_conc':
+                    ops.append({'op': 'sweep'})
             elif r < 0.2:
                 ops.append({'op': 'sweep'})
             else:
@@ -121,6 +139,49 @@ class C06(Check):
                 if pats != [t['pattern'] for t in table]:
                     res.violate(K + 'routes-reordered', 'step %d after add(index=%r): routes %r, expected %r (before: %r)'
                                 % (step, idx, pats, [t['pattern'] for t in table], before), step)
+                    break
+            elif op['op'] == 'add_conc':
+                e = dict(op['entry'], mode=mode, prefix='')
+                idx = op['index']
+                before_tbl = list(table)
+                after_tbl = list(table)
+                if idx is None:
+                    after_tbl.append(e)
+                else:
+                    after_tbl.insert(idx, e)
+                out = {}
+
+                def do_add():
+                    try:
+                        app.add(make_route(op['entry']), index=idx)
+                    except Exception as ex:
+                        out['add_exc'] = ex
+
+                def do_req():
+                    out['ex'] = call_app(app, make_environ(op['req']['method'], op['req']['path']), validate=False)
+                sched = BatonScheduler(op.get('order', ['A', 'R']), op.get('preempts', []), op.get('granularity', 'line'), WATCH)
+                sched.run({'A': do_add, 'R': do_req})
+                res.fire('preempt', len(sched.switches))
+                res.probe('add-concurrent-with-request')
+                res.nontrivial = True
+                if 'add_exc' in out or sched.errors:
+                    res.violate(K + 'add-failed:%s' % type(out.get('add_exc') or list(sched.errors.values())[0]).__name__,
+                                'step %d concurrent add raised %r %r' % (step, out.get('add_exc'), sched.errors), step)
+                    break
+                got = R.observe(out['ex'])
+                exp_b = R.dispatch_model(before_tbl, op['req']['path'], op['req']['method'])
+                exp_a = R.dispatch_model(after_tbl, op['req']['path'], op['req']['method'])
+                if R.compare(exp_b, got) and R.compare(exp_a, got):
+                    res.violate(K + 'request-during-add-inconsistent',
+                                'step %d %s %s served while add(index=%r) ran: %s matches neither the table before nor after'
+                                % (step, op['req']['method'], op['req']['path'], idx, dict((k, v) for k, v in got.items() if v is not None)), step)
+                    break
+                table[:] = after_tbl
+                res.ev(step, 'add_conc', e['pattern'], idx, 'switches', len(sched.switches), got['status'])
+                pats = [r.pattern for r in app.routes]
+                if pats != [t['pattern'] for t in table]:
+                    res.violate(K + 'routes-reordered', 'step %d after concurrent add(index=%r): routes %r, expected %r'
+                                % (step, idx, pats, [t['pattern'] for t in table]), step)
                     break
             elif op['op'] == 'req':
                 got = one(op['path'], op['method'], step)
